@@ -3,6 +3,7 @@ import os
 import re
 
 from .. import common
+from . import c02_chan
 
 # planted self-contained lines; each yields exactly one diagnostic in a single-pass program
 ERR_LINES = ["\tfoo%d", "\tdb 300+%d", "\tld a", '\terror "boom%d"', "\tmerr"]
@@ -123,7 +124,7 @@ def spec_check(obs, quiet, werror=False):
 
 def run(args):
     res = common.Result("C02", args.tier, args.seed, "proof")
-    bdir, audit, proof_problems = common.standard_setup(res, "C02", ["Widths"])
+    bdir, audit, proof_problems = common.standard_setup(res, "C02", ["Widths", "PassConsts"])
     if bdir is None:
         return res.finish()
     rng = common.rng_for(args.seed, "C02")
@@ -216,15 +217,28 @@ def run(args):
                         mism.append("file %d summary %d/%d vs model %s/%s" % (i, obs["sum_err"][i], obs["sum_warn"][i], mf[1], mf[2]))
         if mism:
             corr_fail.append(dict(why="; ".join(mism), correspondence="asl exit status / code file / counts == Model.ErrCount.invoke", **case_desc))
+    # ---- channels (listing to console / file, LISTING regions, -E targets) and multi-pass diagnostics (-Y, jump errors):
+    #      vlib/props/c02_chan.py, Model/ErrChan.lean, Spec/Report.lean, Props/C02_Chan.lean, driver mode c02x
+    with common.Workdir("c02x") as wd:
+        cp = c02_chan.run_part(args, bdir, wd)
+    spec_fail += cp["spec_fail"]
+    corr_fail += cp["corr_fail"]
+    proof_problems += cp["problems"]
+    dist["channels_and_passes"] = cp["dist"]
+    samples += cp["samples"]
     res.coverage = common.proof_coverage(audit, "C02", [
-        "translate/tables.py (bit width of ErrorCount/WarnCount via sizeof in a compiled dumper)",
-        "correspondence: real asl vs Model.ErrCount on generated sources (differential test)"])
-    res.coverage.update(evaluations=len(cases), distinct_nontrivial=len([r for r in distinct if any(c in r.split(" ", 3)[3] for c in "ewuf")]),
-                        rule="sources with planted one-diagnostic lines (5 error kinds incl. macro-internal, numbered and user warnings, FATAL) x -q/-Werror/-maxerrors/-w/-x/-n x 1..3 files per run, plus boundary counts around 2^16; non-trivial = at least one diagnostic; distinct by (options, diagnostic sequences)",
+        "translate/tables.py (bit width of ErrorCount/WarnCount via sizeof in a compiled dumper; MaxSymPass via gen_passconsts)",
+        "correspondence: real asl vs Model.ErrCount on generated sources (differential test)",
+        "correspondence: real asl vs Model.ErrChan (messages per stream and pass, summaries on console and in the listing file, code files, status) on generated 6502/68HC11/Z80/8048 sources",
+        "harness: attribution of messages to source files (name in the message prefix) and to passes ('PASS n' markers, only when the error channel shares stdout)"])
+    res.coverage.update(evaluations=len(cases) + cp["evaluations"],
+                        distinct_nontrivial=len([r for r in distinct if any(c in r.split(" ", 3)[3] for c in "ewuf")]) + len(cp["distinct"]),
+                        rule="(channels and passes) sources over {planted diagnostic lines, LISTING OFF/ON/NOSKIPPED/PURECODE, SAVE/RESTORE, labels, EQUs, fills around the branch/page limits, 6502 lda/bne, 68HC11 ldd/beq, Z80 jr, 8048 jz, diagnostics in macros and include files} x {no listing, -l, -L/-olist} x {-E !1, !2, file, <src>.log, default} x -q/-Werror/-w/-maxerrors/-Y/-r/-n/-x/-gnuerrors/-t/-u/-C/-s x 1..3 files, judged by Spec.Report and compared with Model.ErrChan; distinct by (options, programs), non-trivial = at least one diagnostic, listing switch or symbol reference; (base) sources with planted one-diagnostic lines (5 error kinds incl. macro-internal, numbered and user warnings, FATAL) x -q/-Werror/-maxerrors/-w/-x/-n x 1..3 files per run, plus boundary counts around 2^16; non-trivial = at least one diagnostic; distinct by (options, diagnostic sequences)",
                         samples=samples, distribution=dist, counter_width_bits=width)
-    res.assumptions = ["single-pass sources: the totals clause is read as 'diagnostics of the final pass'",
+    res.assumptions = ["the totals clause is read as 'diagnostics of the final pass' (warnings are repeated in every pass; an error ends the assembly with its pass); with -Y a jump error emitted before the address change was detected is documented to be forgotten and is not a reported error (Spec/Report.lean)",
+                       "theorems of Props/C02_Chan.lean need JmpErrors = 0 at the start of a source file; C02_finding_stale_jmperrors shows that nothing guarantees it for the second file of a run (known finding)",
                        "hypothesis Fits (messages per file < 2^%d) of the theorems is met by all but the boundary cases" % width]
-    return common.conclude(res, proof_problems, spec_fail, corr_fail, len(cases))
+    return common.conclude(res, proof_problems, spec_fail, corr_fail, len(cases) + cp["evaluations"])
 
 
 def replay(args):
